@@ -530,6 +530,15 @@ fn gen_paths(rng: &mut Rng, tree: &Tree, cwd: &str, mode: Mode) -> Vec<String> {
     let files = files_of(tree);
     let links: Vec<String> = tree.iter().filter(|(_, n)| matches!(n, Node::Symlink(_))).map(|(k, _)| k.clone()).collect();
     let dirs = dirs_of(tree);
+    // links to directories, with the directory they lead to
+    let dirlinks: Vec<(String, String)> = links
+        .iter()
+        .filter_map(|l| {
+            let Some(Node::Symlink(t)) = tree.get(l) else { return None };
+            let tk = resolve(parent(l), t)?;
+            (tk == "." || matches!(tree.get(&tk), Some(Node::Dir))).then(|| (l.clone(), tk))
+        })
+        .collect();
     let mut n = match rng.below(12) {
         0..=3 => 1,
         4..=7 => rng.range(2, 3),
@@ -544,9 +553,33 @@ fn gen_paths(rng: &mut Rng, tree: &Tree, cwd: &str, mode: Mode) -> Vec<String> {
     let mut out: Vec<String> = Vec::new();
     for _ in 0..n {
         let r = rng.below(100);
-        let p = if r < 72 && !files.is_empty() {
+        let p = if (66..72).contains(&r) && !dirlinks.is_empty() {
+            // a path that leads through a link to a directory: into it, or `link/../name` -
+            // which is the parent of the directory the link points to, not of the link
+            let (l, t) = rng.pick(&dirlinks).clone();
+            let below: Vec<String> = files.iter().filter(|f| is_below(f, &t)).cloned().collect();
+            let via = spell(rng, cwd, &l, false);
+            if t == "." || (!below.is_empty() && rng.chance(0.5)) {
+                match below.is_empty() {
+                    false => {
+                        let f: String = rng.pick(&below[..]).clone();
+                        format!("{}/{}", via, rel_from(&t, &f))
+                    }
+                    true => format!("{}/nope.typ", via),
+                }
+            } else {
+                let mut names: Vec<String> = files.iter().filter(|f| parent(f) == parent(&t) || parent(f) == parent(&l)).map(|f| file_name(f).to_string()).collect();
+                names.push("nope.typ".to_string());
+                format!("{}/../{}", via, rng.pick(&names[..]))
+            }
+        } else if r < 72 && !files.is_empty() {
             let f = rng.pick(&files).clone();
-            spell(rng, cwd, &f, false)
+            let mut s = spell(rng, cwd, &f, false);
+            if rng.chance(0.03) {
+                // a trailing slash after a regular file: not a directory
+                s.push('/');
+            }
+            s
         } else if r < 80 {
             // missing
             let d = rng.pick(&dirs).clone();
@@ -618,8 +651,20 @@ pub fn gen_inv(rng: &mut Rng, tree: &Tree, docs: &mut Docs, focus: Focus, main_s
             } else if rng.chance(0.25) {
                 None
             } else {
-                let d = rng.pick(&dirs).clone();
-                Some(spell(rng, &cwd, &d, true))
+                // one time in eight (if there is one): a link to a directory given as DIR - the
+                // walk starts at the directory it leads to
+                let dirlinks: Vec<String> = tree
+                    .iter()
+                    .filter(|(k, n)| matches!(n, Node::Symlink(_)) && matches!(follow(tree, k).map(|t| t == "." || matches!(tree.get(&t), Some(Node::Dir))), Some(true)))
+                    .map(|(k, _)| k.clone())
+                    .collect();
+                if !dirlinks.is_empty() && rng.chance(0.125) {
+                    let l = rng.pick(&dirlinks).clone();
+                    Some(spell(rng, &cwd, &l, true))
+                } else {
+                    let d = rng.pick(&dirs).clone();
+                    Some(spell(rng, &cwd, &d, true))
+                }
             };
             Shape::FormatAll { check, dir, inplace: rng.chance(0.12) }
         }
@@ -646,6 +691,23 @@ pub fn gen_inv(rng: &mut Rng, tree: &Tree, docs: &mut Docs, focus: Focus, main_s
             }
         }
     };
+    let mut style = style;
+    if matches!(shape, Shape::FormatAll { .. }) && style.after && rng.chance(0.3) {
+        // the same option before and after the subcommand; half of the time the one that counts
+        // spells out the default
+        if rng.chance(0.7) {
+            if style.column.is_none() || rng.chance(0.5) {
+                style.column = Some(80);
+            }
+            style.pre_column = Some(*rng.pick(&[0usize, 20, 40, 79, 81, 120, 400]));
+        }
+        if rng.chance(0.5) {
+            if style.tab.is_none() || rng.chance(0.5) {
+                style.tab = Some(2);
+            }
+            style.pre_tab = Some(*rng.pick(&[0usize, 1, 3, 4, 8]));
+        }
+    }
     Inv {
         shape,
         style,
